@@ -25,6 +25,8 @@ var skelFuncs = map[string][]string{
 	"skiplist/iterator.go":       {"Iterator.SeekFirst", "Iterator.Seek", "Iterator.SeekWithCmp", "Iterator.Next", "Iterator.Refresh", "Iterator.Valid"},
 	"skiplist/access_barrier.go": {"AccessBarrier.Acquire", "AccessBarrier.Release", "AccessBarrier.FlushSession", "AccessBarrier.doCleanup", "AccessBarrier.hasReadySession"},
 	"skiplist/node_amd64.go":     {"Node.getNext", "Node.dcasNext", "Node.setNext"},
+	"skiplist/builder.go":        {"Segment.Add", "Builder.Assemble"},
+	"skiplist/stats.go":          {"Stats.Merge", "Stats.AddInt64", "Stats.AddUint64"},
 	"nitro.go":                   {"Snapshot.Open", "Snapshot.Close", "Nitro.GC", "Nitro.collectDead", "Writer.DeleteNode", "Writer.Delete2", "Writer.Put2", "Nitro.collectionWorker", "Nitro.freeWorker", "Nitro.newBSDestructor"},
 }
 
@@ -78,6 +80,13 @@ func (w *skelWalker) expr(e ast.Node) {
 					w.emit("yield %s", id.Name)
 				}
 			} else if skelCalls[name] {
+				// sync/atomic primitives carry their package: sts.AddInt64 (plain or atomic depending on
+				// the receiver's isLocal flag) is not atomic.AddInt64
+				if sel, ok := x.Fun.(*ast.SelectorExpr); ok {
+					if id, ok := sel.X.(*ast.Ident); ok && id.Name == "atomic" {
+						name = "atomic." + name
+					}
+				}
 				w.emit("call %s", name)
 			}
 			return false
